@@ -184,7 +184,9 @@ def run(ctx):
         got["two" if cs == two else "more" if cs == T.b_not(two) else T.show(cs)] = e.value
     a, b = sorted([T.call("set", (T.attr(T.idx(verts, T.num(0)), "ownCells"),)), T.call("set", (T.attr(T.idx(verts, T.num(1)), "ownCells"),))], key=repr)
     want_two = T.call("list", (T.call("bitand", (a, b)),))
-    want_two_alt = T.call("list", (T.call("bitand", (a, T.call("set", (T.attr(T.idx(verts, T.num(-1)), "ownCells"),)))),))
+    # with exactly two vertices the last one is the second one: vertices[-1] is another spelling of vertices[1] in this branch
+    a2, b2 = sorted([T.call("set", (T.attr(T.idx(verts, T.num(0)), "ownCells"),)), T.call("set", (T.attr(T.idx(verts, T.num(-1)), "ownCells"),))], key=repr)
+    want_two_alt = T.call("list", (T.call("bitand", (a2, b2)),))
     want_more = T.attr(T.idx(verts, T.call("floordiv", (T.sub(nvert, T.num(1)), T.num(2)))), "ownCells")
     ok = set(got) == {"two", "more"} and got["two"] in (want_two, want_two_alt) and got["more"] == want_more
     ctx.check(ok, "FORM", f"{f3.qualname} / FORM / own_cells = cells of the middle vertex (two-point: cells common to both ends), in registration order", ctx.where(f3),
